@@ -113,6 +113,62 @@ theorem volume_tail_prefix (fmt : VolFmt) (img : Img) (wf : img.WF fmt) (a : Nat
     rw [hn, hoff']
     exact this
 
+/-- **segments_prefix.**  `read_segments` (any number of segments — `fileslice` splits a partial read
+    `dataobj[idx]` into several when the gaps exceed `SKIP_THRESH`) against ANY prefix source of a file:
+    it raises, or it returns exactly the bytes the complete file holds at these segments; the latter
+    only if every non-empty segment — in particular the last one — lies completely inside the prefix. -/
+theorem segments_prefix (file : Bytes) (m : Nat) (st : Bool) (segs : List (Nat × Nat)) :
+    let r := readSegments ⟨file.take m, st⟩ segs (segsTotal segs)
+    Safe r (sliceBytes file segs) ∧
+    (r = .ok (sliceBytes file segs) → ∀ sg ∈ segs, 0 < sg.2 → sg.1 + sg.2 ≤ m) :=
+  readSegments_prefix file m st segs
+
+example : readSegments (Src.plain [1, 2, 3, 4, 5, 6, 7, 8]) [(1, 2), (5, 3)] (segsTotal [(1, 2), (5, 3)])
+    = .ok [2, 3, 6, 7, 8] ∧
+    readSegments (Src.plain ([1, 2, 3, 4, 5, 6, 7, 8].take 7)) [(1, 2), (5, 3)] (segsTotal [(1, 2), (5, 3)])
+    = .error .trunc := by decide
+
+/-- **volume_slice_prefix.**  A partial read `img.dataobj[idx]` of a single-file volume (segments
+    computed by the C06 model of `calc_slicedefs` with the default threshold heuristic, for whatever
+    shape / item size the caller states) from any prefix source raises or fetches exactly the bytes the
+    complete file holds at the computed segments, all of which then lie inside the prefix. -/
+theorem volume_slice_prefix (fmt : VolFmt) (img : Img) (wf : img.WF fmt) (idx : List C06.IdxItem)
+    (shape : List Nat) (isz : Nat) (m : Nat) (st : Bool) :
+    let file := writeSingle fmt img
+    ∀ b, readSliceSingle fmt ⟨file.take m, st⟩ idx shape isz = .ok b →
+      ∃ d segs, C06.calcSlicedefs (C06.thresholdHeuristic skipThresh) idx shape isz (singleOff fmt img) .F = .ok d ∧
+        natSegs d.segments = some segs ∧ b = sliceBytes file segs ∧
+        ∀ sg ∈ segs, 0 < sg.2 → sg.1 + sg.2 ≤ m := by
+  intro file b h
+  simp only [readSliceSingle] at h
+  split at h
+  · cases h
+  · rename_i n off hh
+    have hfile : file =
+        hdrBlock img (singleOff fmt img) ++ (midBytes fmt img ++ img.data ++ img.footer) := by
+      simp [file, writeSingle, List.append_assoc]
+    have hh' := hh
+    rw [hfile] at hh'
+    obtain ⟨_, hoff, _⟩ := header_fields fmt img _ _ true m st n off wf.hdr wf.dlen wf.off hh'
+    have hoff' : off = singleOff fmt img := by
+      rw [hoff]
+      cases hfo : fmt.fixedOff with
+      | none => rfl
+      | some o => simpa using wf.fixed o hfo
+    subst hoff'
+    simp only [readSliceAt] at h
+    split at h
+    · cases h
+    · rename_i d hd
+      split at h
+      · cases h
+      · rename_i segs hs
+        have hp := readSegments_prefix file m st segs
+        rcases hp.1 with h1 | ⟨e, he⟩
+        · refine ⟨d, segs, hd, hs, ?_, hp.2 h1⟩
+          rw [h1] at h; cases h; rfl
+        · rw [he] at h; cases h
+
 /-! ### pairs (NIfTI-1/2 `.hdr/.img`, Analyze, SPM99, SPM2) -/
 
 /-- **pair_prefix (header member).**  Header file cut anywhere (image file intact): the load raises
@@ -408,7 +464,7 @@ theorem gen_constants_ok :
     Gen.trkOffHdrSize = trkOffHdrSize ∧ Gen.trkWidths = [2, 2, 4, 4, 4] ∧
     Gen.tckMagic = tckMagic ∧ Gen.tckFiberDelim = nanTriple ∧ Gen.tckEofDelim = infTriple ∧
     tripleAll f32IsNaN nanTriple = true ∧ tripleAll f32IsInf infTriple = true ∧
-    Gen.sniffMax = 1024 ∧
+    Gen.sniffMax = 1024 ∧ Gen.skipThresh = skipThresh ∧
     (∀ f ∈ Gen.volFmts, 16 ≤ f.hdrSize ∧ f.sniffLen ≤ f.hdrSize ∧ f.sniffLen ≤ Gen.sniffMax ∧
       (f.footer ≠ 0 → f.fixedOff.isSome ∧ f.exts = false ∧ f.sniffLen = 0)) := by
   decide
